@@ -68,6 +68,8 @@ type SessionOpts struct {
 	Rows     int      // default 24
 	Env      []string
 	NoListen bool // do not add --listen (Post/Get/Sync unavailable)
+	NoSync   bool // with --listen: do not run the first Sync (its marker is written by execute-silent, that is through the
+	// shell: a session whose shell cannot be started would never pass it); the start is complete when GET answers
 }
 
 type FzfItem struct {
@@ -298,6 +300,11 @@ func startOnce(c *Ctx, o SessionOpts) (*Session, error, bool) {
 	deadline := time.Now().Add(10 * time.Second)
 	for {
 		if s.exited.Load() {
+			// the exit can be noticed before the drain goroutine has read what fzf wrote on its way out (seen on a
+			// loaded machine: "code 2" with an empty screen, so that a lost race for the port was not retried)
+			for w := 0; w < 200 && len(s.Screen()) == 0; w++ {
+				time.Sleep(5 * time.Millisecond)
+			}
 			scr := string(s.Screen())
 			retry := strings.Contains(scr, "failed to listen")
 			s.Close()
@@ -321,7 +328,7 @@ func startOnce(c *Ctx, o SessionOpts) (*Session, error, bool) {
 		}
 		time.Sleep(500 * time.Microsecond)
 	}
-	if !o.NoListen {
+	if !o.NoListen && !o.NoSync {
 		// the marker is written into OUR private directory, so this also proves that the server that answered is ours
 		// (another process may have taken the port between freePort and fzf's bind: then our fzf has exited)
 		if err := s.Sync(); err != nil {
@@ -330,7 +337,7 @@ func startOnce(c *Ctx, o SessionOpts) (*Session, error, bool) {
 			s.Close()
 			return nil, fmt.Errorf("first sync: %v (%s)", err, scr), retry
 		}
-	} else {
+	} else if o.NoListen {
 		time.Sleep(30 * time.Millisecond)
 	}
 	return s, nil, false
